@@ -75,7 +75,9 @@ int64_t KillSwapUsage<Base>::getSwapExcess(const CgroupContext& cgroup_ctx) {
   const auto memProtection = cgroup_ctx.memory_protection();
   if (memProtection) {
     const int64_t swapLow = swapRatio_ * memProtection.value();
-    const auto excess = cgroup_ctx.swap_usage().value() - swapLow;
+    // swap usage may be unavailable (file missing, cgroup gone) even when the
+    // protection is known, e.g. for a candidate restored after a prekill hook
+    const auto excess = cgroup_ctx.swap_usage().value_or(0) - swapLow;
     return excess > 0 ? excess : 0;
   }
   return cgroup_ctx.swap_usage().value_or(0);
